@@ -536,8 +536,10 @@ def ode_arrays(draw: Any) -> dict:
     rows = draw(st.integers(2, 9))
     val = st.one_of(_f(-10.0, 10.0), st.integers(-3, 3).map(float),
                     _signed_mag(1e-6, 1e9))
-    cval = st.one_of(val, val, val, val, val, val, val, val, val,
-                     st.sampled_from([1e100, -1e100, 1e150, 9.99e99]))
+    cval = val
+    if draw(st.integers(0, 3)) == 0:  # values at / beyond the 1e100 clamp
+        cval = st.one_of(val, val, val, st.sampled_from(
+            [1e100, -1e100, 1e150, 9.99e99]))
     t = 0.0
     data = []
     for _ in range(rows):
@@ -798,7 +800,7 @@ def objective_x(draw: Any, init: dict) -> list[float]:
 def surrogate_specs(draw: Any, name: str, cdim: int = 1) -> dict:
     n = SYSTEM_DIM[name]
     kind = draw(st.sampled_from(["decay", "decay", "random", "zero",
-                                 "nan_beyond"]))
+                                 "nan_beyond", "growth"]))
     w = [[0.0] * (n + cdim) for _ in range(n)]
     if kind in ("decay", "nan_beyond"):
         for i in range(n):
@@ -808,6 +810,11 @@ def surrogate_specs(draw: Any, name: str, cdim: int = 1) -> dict:
     elif kind == "random":
         w = [[draw(_f(-1.0, 1.0)) for _ in range(n + cdim)]
              for _ in range(n)]
+    elif kind == "growth":
+        # exponential growth towards the 1e10 limit: shortened simulations
+        # with huge (but admissible) figures of merit
+        for i in range(n):
+            w[i][i] = draw(_f(1.0, 20.0))
     bias = [draw(st.one_of(st.just(0.0), _f(-0.5, 0.5))) for _ in range(n)]
     spec = {"W": w, "bias": bias, "kind": kind}
     if kind == "nan_beyond":
